@@ -168,5 +168,6 @@ func TestVerifC07TruncCommit(t *testing.T) {
 	defer vkit.WriteStats()
 	defer verifTempCleanup()
 	verifRequire(t)
+	propC07Trunc.CrashFile = true
 	propC07Trunc.Check(t)
 }
